@@ -198,6 +198,7 @@ def run(job, streams=None):
     viol = []
     probes = {site: 1}
     cls = None
+    same_sig = []
     ctx = ["[site=%s victim=%s scenario=%s]" % (
         site, victim, json.dumps(sc, sort_keys=True))]
 
@@ -252,7 +253,8 @@ def run(job, streams=None):
     post = None
     SIGCLS = ["flip", "empty", "trunc", "extend", "other_scheme",
               "other_transcript", "wrong_key", "omitted", "degenerate",
-              "degenerate"]
+              "degenerate",
+              "other_transcript", "other_transcript"]
 
     def sig_rule(clsname, attr_sig, cls_):
         def rule(msg, c):
@@ -345,6 +347,10 @@ def run(job, streams=None):
                 if type(msg).__name__ != clsname or lifted_sig is None:
                     return None
                 if bytes(msg.signature) == bytes(lifted_sig):
+                    # two different handshakes (other randoms) carry the very
+                    # same signature: the signed content does not depend on
+                    # the transcript
+                    same_sig.append(type(msg).__name__)
                     return None
                 msg.signature = bytearray(lifted_sig)
                 fired.append(cls)
@@ -536,6 +542,13 @@ def run(job, streams=None):
                 verdict = True
         return _res(job, ch, sim, sc, viol, probes, verdict, "pha")
 
+    if cls == "other_transcript" and same_sig:
+        verdict = True
+        v("proof_independent_of_transcript", "%s|%s" % (site, sc.get(
+            "ckey" if victim == "s" else "skey")),
+          "the %s of two different handshakes (other randoms, same key) "
+          "carries the very same signature: what is signed does not depend "
+          "on the transcript, so the proof can be replayed" % same_sig[0])
     if fired:
         verdict = True
         if vo.kind == "ok":
